@@ -16,6 +16,11 @@ bad=<n>: the driver answers Begin with driver.ErrBadConn n times first (log BB).
 cancel=c<k> / d<k>: the context given to TransactCtx is cancelled / runs into its deadline just before statement k
 (k = number of statements: just before the body ends); api=ctxdead: the deadline has passed before the call.
 commit=panic / rollback=panic: the driver's Commit / Rollback panics (log C! / R!, obs esc=1 when the call left by a panic).
+round 4 — cfg: accept=<none|user|user2|both> (WithAcceptable options in order), accept1=… (second SqlConn instance of the
+section; ops say inst=<0|1>).  commit= / rollback= also `fail:<cls>:<i|w|b>`: the failing call returns an error of a
+breaker-acceptable class (Is method / wrapping the sentinel / the bare sentinel).  statement letters r / o / w: a QueryRow
+that finds no row (ErrNotFound returned / ignored) / that the driver faults; t / T: exec / nested Transact through
+NewSessionFromTx(raw tx).  obs: `core=<ret>|-` what the request handed to the breaker returned (recording breaker only).
 -/
 import GoZero.Base.Trace
 import GoZero.C14.Spec
@@ -27,11 +32,13 @@ open GoZero
 
 def Cls.render : Cls → String
   | .plain => "plain" | .noRows => "norows" | .txDone => "txdone"
-  | .canceled => "canceled" | .accType => "acctype" | .userOk => "userok"
+  | .canceled => "canceled" | .accType => "acctype" | .userOk => "userok" | .userOk2 => "userok2"
 
 def Src.render : Src → String
-  | .begin => "begin" | .body c => "body." ++ c.render | .stmt i => s!"stmt{i}" | .commit => "commit"
-  | .rollback => "rollback" | .conn => "conn" | .ctx => "ctx" | .breaker => "breaker" | .nest => "nest"
+  | .begin => "begin" | .body c => "body." ++ c.render | .stmt i => s!"stmt{i}"
+  | .commit c => if c == .plain then "commit" else "commit." ++ c.render
+  | .rollback c => if c == .plain then "rollback" else "rollback." ++ c.render
+  | .conn => "conn" | .ctx => "ctx" | .breaker => "breaker" | .nest => "nest"
   | .panic => "panic" | .deadline => "deadline" | .badConn => "badconn"
 
 def renderSrcs (l : List Src) : String :=
@@ -72,16 +79,19 @@ def Result.render (r : Result) (withMark : Bool) : String :=
 def parseCls : String → Option Cls
   | "plain" => some .plain | "norows" => some .noRows | "txdone" => some .txDone
   | "canceled" => some .canceled | "acctype" => some .accType | "userok" => some .userOk
+  | "userok2" => some .userOk2
   | _ => none
 
 def parseSrc (s : String) : Option Src :=
   match s with
-  | "begin" => some .begin | "commit" => some .commit | "rollback" => some .rollback
+  | "begin" => some .begin | "commit" => some (.commit .plain) | "rollback" => some (.rollback .plain)
   | "conn" => some .conn | "ctx" => some .ctx | "breaker" => some .breaker | "nest" => some .nest
   | "panic" => some .panic | "deadline" => some .deadline | "badconn" => some .badConn
   | _ =>
     match s.splitOn "." with
     | ["body", c] => (parseCls c).map Src.body
+    | ["commit", c] => (parseCls c).bind fun c => if c == .plain then none else some (.commit c)
+    | ["rollback", c] => (parseCls c).bind fun c => if c == .plain then none else some (.rollback c)
     | _ =>
       match s.toList with
       | 's' :: 't' :: 'm' :: 't' :: ds => (String.ofList ds).toNat?.map Src.stmt
@@ -156,6 +166,11 @@ def parseStmt : Char → Option Stmt
   | 'P' => some { kind := .exec, fails := true, prop := true }
   | 'N' => some { kind := .nest, fails := true, prop := true }
   | 'M' => some { kind := .nest, fails := true, prop := false }
+  | 'r' => some { kind := .rowq, fails := false, prop := true }    -- QueryRow finds no row: ErrNotFound returned
+  | 'o' => some { kind := .rowq, fails := false, prop := false }   -- … ignored
+  | 'w' => some { kind := .rowq, fails := true, prop := true }     -- QueryRow faulted by the driver, returned
+  | 't' => some { kind := .exec, fails := false, prop := true }    -- exec through NewSessionFromTx(raw tx), checked
+  | 'T' => some { kind := .nest, fails := true, prop := true }     -- nested Transact over NewSessionFromTx(raw tx)
   | _ => none
 
 def parseStmts (s : String) : Option (List Stmt) :=
@@ -173,9 +188,23 @@ def parseEnd (s : String) : Option End :=
 def parseOk : String → Option Bool
   | "ok" => some true | "fail" => some false | _ => none
 
-/-- answer of the driver's Commit / Rollback: (ok, panics) -/
-def parseEndAns : String → Option (Bool × Bool)
-  | "ok" => some (true, false) | "fail" => some (false, false) | "panic" => some (false, true) | _ => none
+/-- answer of the driver's Commit / Rollback: (ok, panics, class of the error returned, form of the error value).
+`fail` = `fail:plain`; `fail:<cls>:<i|w|b>`: the error answers errors.Is for the class's sentinel through an Is
+method (i), wraps it (w: Unwrap chain) or IS the sentinel (b: bare) — one class for the model. -/
+def parseEndAns (s : String) : Option (Bool × Bool × Cls × String) :=
+  match s.splitOn ":" with
+  | ["ok"] => some (true, false, .plain, "-")
+  | ["fail"] => some (false, false, .plain, "-")
+  | ["panic"] => some (false, true, .plain, "-")
+  | ["fail", c, form] =>
+    if ["i", "w", "b"].contains form then (parseCls c).bind fun c => if c == .plain then none else some (false, false, c, form)
+    else none
+  | _ => none
+
+def parseUA : String → Option UA
+  | "none" => some {} | "user" => some { a1 := true } | "user2" => some { a2 := true }
+  | "both" => some { a1 := true, a2 := true }
+  | _ => none
 
 /-- `-` | `c<k>` | `d<k>` → (cancelAt, deadline) -/
 def parseCancel (s : String) : Option (Option Nat × Bool) :=
@@ -191,6 +220,9 @@ structure Op where
   b   : Body
   brkAllow : Bool
   oq : String := ""        -- "goexit" / "nilpanic": an exit of the body outside the property's quantifier
+  inst : Nat := 0          -- which SqlConn instance of the section the call goes to
+  cform : String := "-"    -- form of the Commit / Rollback error value (coverage only)
+  rform : String := "-"
   deriving Repr
 
 def parseOp (op : List String) : Option Op :=
@@ -212,12 +244,14 @@ def parseOp (op : List String) : Option Op :=
       | "allow" => some true | "reject" => some false | _ => none)
     let oq := (match (← kv? rest "end") with
       | "goexit" => "goexit" | "panicnil1" => "nilpanic" | _ => "")
-    if oq != "" && (cm.2 || rb.2) then none
+    if oq != "" && (cm.2.1 || rb.2.1) then none
+    let inst ← (match kv? rest "inst" with
+      | none => some 0 | some "0" => some 0 | some "1" => some 1 | _ => none)
     pure { api := api,
-           f := { begin := bg, commit := cm.1, rollback := rb.1, badConn := bad, commitPanics := cm.2,
-                  rollbackPanics := rb.2 },
+           f := { begin := bg, commit := cm.1, rollback := rb.1, badConn := bad, commitPanics := cm.2.1,
+                  rollbackPanics := rb.2.1, commitCls := cm.2.2.1, rollbackCls := rb.2.2.1 },
            b := { stmts := st, fin := en, cancelAt := cn.1, deadline := cn.2 },
-           brkAllow := brk, oq := oq }
+           brkAllow := brk, oq := oq, inst := inst, cform := cm.2.2.2, rform := rb.2.2.2 }
   | _ => none
 
 def isBreakerReject (r : Result) : Bool :=
@@ -226,9 +260,13 @@ def isBreakerReject (r : Result) : Bool :=
 def runSection (r : Report) (s : Section) : Report := Id.run do
   let via := kvStr s.cfg "via" "?"
   let accept := kvStr s.cfg "accept" "none"
+  let accept1 := kvStr s.cfg "accept1" accept      -- the second SqlConn instance of the section (ops with inst=1)
   let mut r := r
-  if !(["fromdb", "named", "namedbad", "onconn", "cached"].contains via) || !(["none", "user"].contains accept) then
+  if !(["fromdb", "named", "namedbad", "onconn", "cached"].contains via) || (parseUA accept).isNone
+      || (parseUA accept1).isNone then
     return r.mismatch s.idx 0 "bad-cfg" (joinSp s.cfg)
+  let ua0 := (parseUA accept).getD {}
+  let ua1 := (parseUA accept1).getD {}
   for l in s.lines do
     match parseOp l.op with
     | none => r := r.mismatch s.idx l.idx "bad-op" (joinSp l.op)
@@ -238,8 +276,9 @@ def runSection (r : Report) (s : Section) : Report := Id.run do
       -- exits outside the quantifier (Goexit, nil panic under GODEBUG=panicnil=1): informational. The code
       -- either commits (recover() != nil saw nothing) or rolls back (completion flag); both are followed.
       let ctxDone := op.api == "ctxdone" || op.api == "ctxdead"
+      let ua := if op.inst == 1 then ua1 else ua0
       let envOq : Env := { ctxDone := ctxDone, brkAllow := op.brkAllow,
-                           connOk := via != "namedbad", userAccept := accept == "user" }
+                           connOk := via != "namedbad", userAccept := ua }
       if op.oq != "" && (via == "onconn" || envOq.admitted) && op.f.opens
           && (runStmts op.b.cancelAt op.b.deadline 0 op.b.stmts).2.isNone
           && kvStr l.obs "ret" "?" != "is:breaker/says:-" then
@@ -253,6 +292,12 @@ def runSection (r : Report) (s : Section) : Report := Id.run do
         else if lg == renderLog mr.log then r := r.addCover s!"outside-quantifier-{op.oq}-rolled-back"
         else r := r.mismatch s.idx l.idx s!"log={renderLog mc.log} or log={renderLog mr.log}" impl
         continue
+      -- a Transact[Ctx] of a connection made from the transaction's own session must refuse (errCantNestTx);
+      -- the harness marks the error of a nested body that ran
+      if (((kvStr l.obs "body" "") ++ (kvStr l.obs "ret" "")).splitOn "nestran").length > 1 then
+        r := r.mismatch s.idx l.idx "nested-transact-refused" impl
+        r := r.violation s.idx l.idx s!"clauses=[nested-transaction-refused] impl=[{impl}] op=[{joinSp l.op}]"
+        continue
       match parseObs l.obs with
       | none =>
         -- e.g. the call panicked out of Transact: not explainable by the model, and a violation of
@@ -264,13 +309,25 @@ def runSection (r : Report) (s : Section) : Report := Id.run do
         let realReject := op.brkAllow && !ctxDone && via != "onconn" && isBreakerReject obs
         if realReject then r := r.addCover "breaker-real-reject"
         let env : Env := { ctxDone := ctxDone, brkAllow := op.brkAllow && !realReject,
-                           connOk := via != "namedbad", userAccept := accept == "user",
+                           connOk := via != "namedbad", userAccept := ua,
                            ctxDead := op.api == "ctxdead" }
         let m := if via == "onconn" then transactOnConn op.f op.b else transactCtx env op.f op.b
+        -- what the request handed to the breaker returned (`core=`; `?` when the harness cannot see it, `-` when
+        -- it did not run / did not return)
+        let coreObs := kvStr l.obs "core" "?"
+        let coreWant := if via == "onconn" || !(!env.ctxDone && env.brkAllow) || m.escaped then "-"
+                        else renderRet (transactFn env.connOk op.f op.b).ret
+        let implCore := if coreObs == "?" then impl else impl ++ " core=" ++ coreObs
+        let implMain := joinSp (l.obs.filter fun t => !t.startsWith "core=")
         let want := m.render markSeen
-        if want ≠ impl then r := r.mismatch s.idx l.idx want impl
+        if want ≠ implMain then r := r.mismatch s.idx l.idx want impl
+        else if coreObs != "?" && coreObs != coreWant then r := r.mismatch s.idx l.idx (want ++ " core=" ++ coreWant) impl
+        let _ := implCore
+        -- the wrapper hands the caller exactly what the request (transact) returned to the breaker
+        let coreBad := coreObs != "?" && coreObs != "-" && !obs.escaped && coreObs != renderRet obs.ret
         let bad := Spec.violated obs ++
-          (if markSeen && !Spec.breakerTold env.userAccept obs then ["breaker-told"] else [])
+          (if markSeen && !Spec.breakerTold env.userAccept obs then ["breaker-told"] else []) ++
+          (if coreBad then ["wrapper-returns-core-error"] else [])
         if !bad.isEmpty then
           r := r.violation s.idx l.idx s!"clauses=[{",".intercalate bad}] impl=[{impl}] op=[{joinSp l.op}]"
         -- coverage
@@ -286,6 +343,24 @@ def runSection (r : Report) (s : Section) : Report := Id.run do
           | some e => renderSrcs (e.is.map fun | .stmt _ => .stmt 0 | x => x) ++ "/" ++
                       renderSrcs (e.says.map fun | .stmt _ => .stmt 0 | x => x)))
         r := r.addCover ("mark-" ++ renderMark m.mark)
+        -- round 4: the acceptable-error classes at every place an error can come from
+        r := r.addCover ("accept-" ++ (if op.inst == 1 then accept1 else accept))
+        if op.inst == 1 then r := r.addCover "second-instance"
+        if coreObs != "?" && coreObs != "-" then r := r.addCover "core-error-observed"
+        if m.log.contains (.commit false) && !m.escaped then
+          r := r.addCover s!"commit-error-cls-{op.f.commitCls.render}-form-{op.cform}-mark-{renderMark m.mark}"
+        if m.log.contains (.rollback false) && !m.escaped then
+          r := r.addCover s!"rollback-error-cls-{op.f.rollbackCls.render}-form-{op.rform}-mark-{renderMark m.mark}"
+        match m.body with
+        | .err e =>
+          match e.is with
+          | [.body c] => r := r.addCover s!"body-error-cls-{c.render}-mark-{renderMark m.mark}"
+          | _ => pure ()
+        | _ => pure ()
+        if op.b.stmts.any (fun st => st.kind == .rowq) then r := r.addCover "stmt-queryrow-norows"
+        if m.mark == some true && m.ret.isSome then r := r.addCover ("acceptable-error-returned-via-" ++ via)
+        if ((kv? l.op "stmts").getD "").toList.any (fun c => c == 't' || c == 'T') then
+          r := r.addCover "stmt-through-NewSessionFromTx"
         r := r.addCover (s!"stmts-{min op.b.stmts.length 6}")
         if op.b.stmts.any (fun st => (st.kind == .nest || st.fails) && !st.prop) then
           r := r.addCover "stmt-error-ignored"
